@@ -46,7 +46,16 @@ Reset ==
     /\ cap' = Ev.lru
     /\ UNCHANGED bad
 
-DoUpdate == PUpdate(DescOf(Ev.parts, Ev.owners)) /\ UNCHANGED bad
+\* the watcher tells its delegate (PartitionRingWatcherDelegate) exactly once per delivered value: (the descriptor of
+\* the ring it held, the delivered descriptor)
+DoUpdate ==
+    LET d == DescOf(Ev.parts, Ev.owners) IN
+    /\ Note(If(Ev.dn >= 0 /\ (Ev.dn # 1 \/ DescOf(Ev.dop, Ev.doo) # ring \/ DescOf(Ev.dnp, Ev.dno) # d), "delegate"))
+    /\ PUpdate(d)
+
+DoConcurrent ==
+    /\ Note(If(Ev.ans # Ev.before /\ Ev.ans # Ev.after, "concurrent"))
+    /\ UNCHANGED pvars
 
 DoDirect ==
     /\ Note(If(Ev.lp # Ev.fp \/ Ev.lo # Ev.fo \/ Ev.lx # Ev.fx, "answer")
@@ -75,6 +84,7 @@ TraceNext ==
          [] Ev.e = "PU" -> DoUpdate
          [] Ev.e = "PD" -> DoDirect
          [] Ev.e = "PS" -> DoShard
+         [] Ev.e = "PCQ" -> DoConcurrent
 
 TraceView == l
 Report == l = Len(Trace) + 1 => PrintT(ToJson([n |-> Len(Trace), bad |-> bad]))
